@@ -353,6 +353,15 @@ func (m *collection) mergerNotifyPersister() {
 			prevLowerLevelSnapshot.decRef()
 		}
 
+		// The segment stacks of child collections carry lower level
+		// snapshots of their own, taken when the merger made its
+		// snapshot; they have to follow in the same way.
+		var llss Snapshot
+		if m.stackDirtyBase.lowerLevelSnapshot != nil {
+			llss = m.stackDirtyBase.lowerLevelSnapshot.ss
+		}
+		m.refreshChildLLSnapshots(m.stackDirtyBase, llss)
+
 		if m.waitDirtyOutgoingCh != nil {
 			close(m.waitDirtyOutgoingCh)
 		}
